@@ -2,8 +2,12 @@
 // package bftworld): every transition is one whole consensus round executed through
 // HandlePhase / HandleMessage / NewHeight under a round scenario; oracle: all commit
 // observations of honest nodes at the height carry the same (block hash, results hash).
+// A second, message-level deviation-bounded search follows.
 package main
 
 import "verifharness/bftworld"
 
-func main() { bftworld.Main("C01") }
+func main() {
+	bftworld.PartFraction = 0.6 // Search 1 may use 60 % of the soft deadline; the rest belongs to Search 2
+	bftworld.Main("C01")
+}
